@@ -514,9 +514,33 @@ class Ctx:
                 run["races"] = [l for l in run["lines"] if re.match(r"\d+ race ", l)]
             return out
 
+        def bad(run):
+            return bool(run["verdict"] != "ok" or run["oracle"] or run["races"]
+                        or (run["replay"] is not None and not run["replay"].startswith("ok")))
+
+        def checked(job):
+            # An alarm must replay: the scheduler is deterministic, so running the same job again gives
+            # the same traces.  A run that is bad once and clean when the identical job is repeated is
+            # an infrastructure flake (real threads are outside the scheduler's control for a few
+            # instructions while they start and exit; an overloaded machine widens that window); it is
+            # recorded in the evidence and the repeated result is used.  Anything that shows up again
+            # (in particular every seeded change tried so far) is judged as before.
+            out = one(job)
+            if not any(bad(r) for r in out):
+                return out
+            again = {r["seed"]: r for r in one(job)}
+            for k, r in enumerate(out):
+                r2 = again.get(r["seed"])
+                if bad(r) and r2 is not None and not bad(r2):
+                    self.cov.setdefault("alarms_not_reproduced", []).append(
+                        "%s seed=%d verdict=%s oracle=%s replay=%s" % (" ".join(args), r["seed"], r["verdict"],
+                                                                        (r["oracle"] or [""])[0][:120], (r["replay"] or "")[:120]))
+                    out[k] = r2
+            return out
+
         allruns = []
         with concurrent.futures.ThreadPoolExecutor(max_workers=NPROC) as ex:
-            for res in ex.map(one, jobs):
+            for res in ex.map(checked, jobs):
                 allruns += res
         self.cov["evaluations"] += len(allruns)
         return allruns
